@@ -118,7 +118,12 @@ func (c *ConnModule) Update(value sqlite.Value, values ...sqlite.Value) error {
 	}
 
 	c.sc.deadline, c.sc.writeTime = newDeadline, newWriteTime
-	c.sc.txFixedWriteTime = false
+	if !writeTime.NoChange() {
+		// an explicitly set (or cleared) write time is the connection's own;
+		// otherwise the transaction's automatic one stays automatic and ends
+		// with the transaction
+		c.sc.txFixedWriteTime = false
+	}
 	c.sc.ResetContext()
 
 	return nil
